@@ -243,7 +243,7 @@ class Ptr:
     def __init__(self, obj, off): self.obj, self.off = obj, off  # off: z3 BV64
 
 class Concretize(Exception):
-    def __init__(self, term, cands): self.term, self.cands = term, cands
+    def __init__(self, term, cands, other=('ub', 'oob/unaligned symbolic access')): self.term, self.cands, self.other = term, cands, other
 
 class ForkBool(Exception):
     def __init__(self, cond): self.cond = cond
@@ -488,7 +488,7 @@ class Executor:
                 oobc = z3.And([c.term != bv(k, 64) for k in c.cands]) if c.cands else z3.BoolVal(True)
                 if self.feasible(st.pc, st, oobc):
                     s3 = st.clone(); s3.pc.append(oobc)
-                    self.stats['paths'] += 1; self.outcomes.append((s3.pc, 'ub', 'oob/unaligned symbolic access', s3.trace))
+                    self.stats['paths'] += 1; self.outcomes.append((s3.pc, c.other[0], c.other[1], s3.trace))
                 if not live: raise Outcome('infeasible')
                 for k, mdl in live[1:]:
                     s2 = st.clone(); s2.pc.append(c.term == bv(k, 64)); s2.conc[c.term.sexpr()] = k; s2.model = mdl
@@ -616,7 +616,9 @@ class Executor:
                 if pred == 'eq': c = z3.And(z3.BoolVal(same), va.off == vb.off)
                 elif pred == 'ne': c = z3.Or(z3.BoolVal(not same), va.off != vb.off)
                 elif same: c = self.ICMP[pred](va.off, vb.off)
-                else: raise Outcome('unsupported', 'ptr order compare across objects')
+                elif isinstance(va.obj, tuple) or isinstance(vb.obj, tuple): raise Outcome('unsupported', 'ptr order compare with global')
+                else:  # same address model as ptrtoint
+                    c = self.ICMP[pred](bv(0x10000 * va.obj, 64) + va.off, bv(0x10000 * vb.obj, 64) + vb.off)
                 c = full_simp(c) if same is False else c
             else:
                 c = self.ICMP[pred](va, vb)
@@ -636,9 +638,10 @@ class Executor:
             p = self.val(st, ty, vtok)
             if isinstance(p.obj, tuple): raise Outcome('unsupported', 'ptrtoint of global')
             w1 = type_bits(toty)
-            # every object gets an unconstrained symbolic base address; only differences / comparisons of
-            # addresses inside one object are meaningful, and those do not depend on the base
-            base = bv(0, 64) if p.obj == 0 else (bv(0x10000 * p.obj, 64) if self.concrete else z3.BitVec('base!%d' % p.obj, 64))
+            # address model: object k lives at the concrete address 0x10000*k (objects are < 64 KiB here), so distinct
+            # objects are disjoint and maximally aligned; behaviour that depends on absolute addresses beyond
+            # disjointness/alignment (which safe Rust cannot observe) is outside the model
+            base = bv(0, 64) if p.obj == 0 else bv(0x10000 * p.obj, 64)
             v = full_simp(base + p.off)
             env[dest] = v if w1 == 64 else simp(z3.Extract(w1 - 1, 0, v)); return
         if op in ('inttoptr', 'bitcast', 'addrspacecast'):
@@ -858,6 +861,32 @@ class Executor:
             self.called.add(name)
             nenv = {nm: a[1] for (ty, nm), a in zip(f.params, args)}
             st.frames.append(dict(fn=f, env=nenv, block=f.order[0], prev=None, idx=0, dest=dest))
+            return
+        # ---- Rust global allocator shims: a fresh object per allocation (never null: allocation failure is outside the
+        # claim), freed objects become zero-sized so that any later access through a dangling pointer is reported as UB
+        if '__rust_no_alloc_shim_is_unstable' in name: return
+        if re.search(r'___rust_alloc(_zeroed)?$', name):
+            n = self.const_off(st, args[0][1])
+            if not z3.is_bv_value(n): raise Concretize(n, list(range(0, 513)), other=('unsupported', 'allocation larger than the modelled 512 bytes'))
+            obj = st.mem.alloc(n.as_long(), bv(0, 8) if name.endswith('zeroed') else None)
+            if dest: env[dest] = Ptr(obj, bv(0, 64))
+            return
+        if re.search(r'___rust_dealloc$', name):
+            d = args[0][1]
+            if isinstance(d.obj, tuple) or d.obj == 0: raise Outcome('ub', 'dealloc of global/null')
+            st.mem.objs[d.obj] = []
+            return
+        if re.search(r'___rust_realloc$', name):
+            d = args[0][1]; old = self.const_off(st, args[1][1]); n = self.const_off(st, args[3][1])
+            if isinstance(d.obj, tuple) or d.obj == 0: raise Outcome('ub', 'realloc of global/null')
+            if not z3.is_bv_value(n): raise Concretize(n, list(range(0, 513)), other=('unsupported', 'allocation larger than the modelled 512 bytes'))
+            cells = st.mem.objs[d.obj]
+            k = n.as_long()
+            obj = st.mem.alloc(k, None)
+            keep = min(k, len(cells))
+            st.mem.objs[obj][:keep] = cells[:keep]
+            st.mem.objs[d.obj] = []
+            if dest: env[dest] = Ptr(obj, bv(0, 64))
             return
         low = name.lower()
         if 'panic' in low or 'unwrap_failed' in low or 'expect_failed' in low or 'slice_index' in low or 'slice_start_index' in low or 'slice_end_index' in low or 'handle_alloc_error' in low or 'assert_failed' in low or low in ('abort',):
